@@ -64,6 +64,11 @@ ZOPE_PROJECTS = [
                                       "class MyIC(InterfaceClass):\n    pass\nIFour = MyIC('IFour')\n",
      "zp/impl.py": "from zope.interface import implementer\nfrom zp.i import IOne, ITwo, IThree, IFour\n@implementer(IOne)\nclass A:\n    pass\n@implementer(ITwo)\nclass B:\n    pass\n"
                    "@implementer(IThree, IFour)\nclass C:\n    pass\n"},
+    # an instance variable assigned BEFORE and AFTER a method, a property, a nested class of the same name is defined in the class
+    {"zp/__init__.py": "", "zp/m.py": "class Channel:\n    def __init__(self):\n        self.send = self._refuse\n        self.mode = 0\n        self.Inner = None\n"
+                                      "    def _refuse(self, d): pass\n    def send(self, d):\n        'doc'\n    @property\n    def mode(self):\n        'doc'\n    class Inner:\n        pass\n"
+                                      "    def close(self):\n        self.send = self._refuse\n        self.mode = 1\n        self.Inner = 2\n        self.fresh = 3\n"
+                                      "class Sub(Channel):\n    def reopen(self):\n        self.send = None\n        self.mode = 2\n        self.Inner = 3\n"},
     # hierarchies Python rejects (no consistent order): the order pydoctor falls back to still names each class once
     {"zp/__init__.py": "", "zp/h.py": "class A: pass\nclass B(A): pass\nclass C(A, B): pass\nclass D(C): pass\n"
                                       "class X(A, B): pass\nclass Y(B, A): pass\nclass Z(X, Y): pass\nclass W(Z, A): pass\n",
